@@ -125,6 +125,7 @@ class HostSim:
         self._devpkt = None      # bytes of the device packet in progress
         self._last_tx_end = -10 ** 9
         self.t = 0
+        self.status_after_silence = False   # control_out: proceed to the status stage when a data-stage packet gets no handshake
 
     # ---- one cycle ------------------------------------------------------------------------------------------
     async def cycle(self, rx_active=0, rx_valid=0, rx_data=0, **extra):
@@ -282,6 +283,7 @@ class HostSim:
                     continue
                 break
             if r == ('hs', PID_STALL): return 'stall'
+            if r is None and self.status_after_silence: break     # unanswered data stage: go on to the status stage
             if r != ('hs', PID_ACK): return 'data-' + str(r)
             data = rest; pid = PID_DATA0 if pid == PID_DATA1 else PID_DATA1
         naks = 0
